@@ -100,6 +100,17 @@ def run_c08(prop, tier):
             five = len(head) >= 5 and ("P" in head or "p" in head)
             both_pawns = "P" in head and "p" in head
             lists.append(("mates", 1, ["--sig", "%s;%sshard=%d/%d" % (s, "" if both_pawns else "ep=none;", i, n)] + (["--m1every", "64" if len(head) >= 5 and not both_pawns else "16", "--anyevery", "0" if q else "64"] if five else [])))
+    # castling-mate family: king and rook on their home squares with the right set, every placement of the rest,
+    # kept only where castling itself delivers mate (also with b1/b8 attacked, where queen-side castling stays legal)
+    csigs = (["Ke1Ra1Qk", "Ke1Rh1Qk", "ke8ra8qK", "ke8rh8qK", "Ke1Ra1Qkn", "ke8ra8qKN", "Ke1Rh1Qkn"] if q else
+             ["Ke1Ra1Qk", "Ke1Rh1Qk", "ke8ra8qK", "ke8rh8qK", "Ke1Ra1Rk", "Ke1Rh1Rk", "ke8ra8rK", "ke8rh8rK"] +
+             [w + x for w in ("Ke1Ra1Qk", "Ke1Rh1Qk", "Ke1Ra1Rk", "Ke1Rh1Rk") for x in "nbrqp"] +
+             [w + x for w in ("ke8ra8qK", "ke8rh8qK", "ke8ra8rK", "ke8rh8rK") for x in "NBRQP"])
+    for s in csigs:
+        stm = "w" if s[0] == "K" else "b"
+        n = 1 if len(s) <= 8 else 4
+        for i in range(n):
+            lists.append(("mates", 1, ["--sig", "%s;ep=none;rights=max;stm=%s;shard=%d/%d" % (s, stm, i, n), "--castlemates"]))
     lists += [("history", 32, []), ("limits", 16, []), ("depths", 16, []), ("tactics", 32, [])]
     merged = driver.merge(driver.run_jobs(prop, tier, _search_jobs(prop, tier, lists), env=_asan_env()))
     return driver.finish(prop, tier, MC, merged, t0,
@@ -108,7 +119,7 @@ def run_c08(prop, tier):
                          assumptions=["sessions run in-process on the -Ofast build; the transposition table and pawn cache are reset to their freshly constructed (all-zero) state before each session",
                                       "y is an upper bound in moves as the property states (the engine counts plies); announcements above the solver cap are counted as unverified, never as violations",
                                       "table contents come only from earlier real searches of the same session"],
-                         guards=[("mate_in_one_searches", 1000), ("mate_announcements", 500), ("mate_announcements_verified", 100)],
+                         guards=[("mate_in_one_searches", 1000), ("mate_announcements", 500), ("mate_announcements_verified", 100), ("mate_in_one_only_by_castling_positions", 100)],
                          replay_fn=replay_search,
                          technique="exhaustive enumeration of small-material positions x depths x table histories on the real search, oracle = exhaustive mate solver")
 
